@@ -285,6 +285,43 @@ pub fn q4_jobs(need: Need, special: bool) -> Vec<Job> {
   jobs
 }
 
+/// O3: three single-key mappings on A, B, J whose outputs SHARE keys and are up to three keys long (a key that is the
+/// final output key of one mapping and an inner output key of another, two action keys in one output, ...).
+pub fn shared_output_jobs(need: Need) -> Vec<Job> {
+  use crate::keys::{Mapping, Repeat};
+  use KeyCode::*;
+  let trig = [A, B, J];
+  let menu: Vec<Vec<KeyCode>> = vec![vec![X], vec![Y], vec![X, Y], vec![Y, X], vec![LEFTSHIFT, X], vec![LEFTSHIFT, Y], vec![LEFTSHIFT, X, Y], vec![LEFTSHIFT, Y, X], vec![X, Y, Z], vec![LEFTCTRL, LEFTSHIFT, X]];
+  let n = menu.len();
+  let mut jobs = vec![];
+  for idx in 0..n.pow(3) { for last_disabled in [false, true] {
+    let mut j = idx; let mut ms = vec![];
+    for q in 0..3 { ms.push(Mapping { from: vec![trig[q]], to: menu[j % n].clone(), repeat: if q == 2 && last_disabled { Repeat::Disabled } else { Repeat::Normal }, absorbing: vec![] }); j /= n; }
+    let layout = Layout { mappings: ms };
+    if !layout_ok(&layout, need) { continue; }
+    jobs.push(Job::Fixed { name: format!("O3-{}-{}", idx, last_disabled), layout, alphabet: vec![A, B, J, X], n: 3, alpha_rule: "the three trigger keys and the shared output key X" });
+  } }
+  jobs
+}
+
+/// M2: two chords under two DIFFERENT real modifiers (LEFTSHIFT+A, LEFTCTRL+{LEFTALT,B}), each absorbing its modifier or not,
+/// the second with an output that is not a keystroke ([], a modifier) or is one: absorbed keys recorded under two triggers at once.
+pub fn two_modifier_jobs(need: Need) -> Vec<Job> {
+  use crate::keys::{Mapping, Repeat};
+  use KeyCode::*;
+  let o1: Vec<Vec<KeyCode>> = vec![vec![LEFTSHIFT, A], vec![X], vec![LEFTSHIFT, X], vec![]];
+  let o2: Vec<Vec<KeyCode>> = vec![vec![], vec![RIGHTALT], vec![LEFTSHIFT], vec![Y], vec![LEFTCTRL, Y]];
+  let mut jobs = vec![];
+  for k2 in [LEFTALT, B] { for (i1, t1) in o1.iter().enumerate() { for (i2, t2) in o2.iter().enumerate() { for abs in 1..4u8 { for r1 in [Repeat::Normal, Repeat::Disabled] { for swap in [false, true] {
+    let m1 = Mapping { from: vec![LEFTSHIFT, A], to: t1.clone(), repeat: r1.clone(), absorbing: if abs & 1 != 0 { vec![LEFTSHIFT] } else { vec![] } };
+    let m2 = Mapping { from: vec![LEFTCTRL, k2], to: t2.clone(), repeat: Repeat::Normal, absorbing: if abs & 2 != 0 { vec![LEFTCTRL] } else { vec![] } };
+    let layout = Layout { mappings: if swap { vec![m2, m1] } else { vec![m1, m2] } };
+    if !layout_ok(&layout, need) { continue; }
+    jobs.push(Job::Fixed { name: format!("M2-{:?}-{}-{}-{}-{}", k2, i1, i2, abs, swap), layout, alphabet: vec![LEFTSHIFT, A, LEFTCTRL, k2], n: 3, alpha_rule: "the four trigger keys" });
+  } } } } } }
+  jobs
+}
+
 /// S4/S5: four or five mappings ending in the SAME key A (triggers drawn with repetition from [A], [CAPSLOCK,A],
 /// [LEFTSHIFT,A], [B,A]), each with its own output key: precedence among many candidates, re-defined triggers.
 pub fn same_final_jobs(need: Need, k: usize) -> Vec<Job> {
@@ -357,6 +394,14 @@ pub fn run(ctx: &Ctx) -> Outcome {
     if ctx.tier == Tier::Thorough || matches!(id, "C03" | "C04") { sj.extend(same_final_jobs(plan.need, 5)); }
     gen_rules.push(json!({"family": "S4/S5", "what": "four (and five) mappings ending in the same key A, triggers drawn with repetition from [A],[CAPSLOCK,A],[LEFTSHIFT,A],[B,A], distinct outputs", "layouts": sj.len(), "bound_keys_held": 4, "alphabet": ["A", "B", "CAPSLOCK", "LEFTSHIFT"]}));
     jobs.extend(sj);
+  }
+  {
+    let oj = shared_output_jobs(plan.need);
+    gen_rules.push(json!({"family": "O3", "what": "three single-key mappings on A,B,J with outputs drawn with repetition from [X],[Y],[X,Y],[Y,X],[LEFTSHIFT,X],[LEFTSHIFT,Y],[LEFTSHIFT,X,Y],[LEFTSHIFT,Y,X],[X,Y,Z],[LEFTCTRL,LEFTSHIFT,X]; the third Normal or Disabled; alphabet A,B,J,X", "layouts": oj.len(), "bound_keys_held": 3}));
+    jobs.extend(oj);
+    let mj = two_modifier_jobs(plan.need);
+    gen_rules.push(json!({"family": "M2", "what": "[LEFTSHIFT,A]->o1 and [LEFTCTRL,k2]->o2, k2 in {LEFTALT,B}, o1 in {[LEFTSHIFT,A],[X],[LEFTSHIFT,X],[]}, o2 in {[],[RIGHTALT],[LEFTSHIFT],[Y],[LEFTCTRL,Y]}, either or both absorbing their modifier, first Normal or Disabled, both orders; alphabet = the four trigger keys", "layouts": mj.len(), "bound_keys_held": 3}));
+    jobs.extend(mj);
   }
   {
     let kj = every_key_jobs(plan.need);
